@@ -38,6 +38,7 @@ type RType struct {
 	Kind   string   `json:"kind"` // struct | id | slice | map
 	Fields []string `json:"fields,omitempty"`
 	Elem   string   `json:"elem,omitempty"`
+	Key    string   `json:"key,omitempty"` // map key type, "" = string
 }
 
 type RStmt struct {
@@ -128,8 +129,13 @@ func GenRoutes(t *rapid.T, o *RouteOpts) *RouteSpec {
 		{Name: "Filter", Kind: "struct", Fields: []string{"Query string", "Limit int"}},
 		{Name: "Items", Kind: "slice", Elem: "Item"},
 		{Name: "Index", Kind: "map", Elem: "Item"},
+		// types that are only ever used as map keys
+		{Name: "IdTag", Kind: "id"},
+		{Name: "IdGroup", Kind: "id"},
+		{Name: "ByTag", Kind: "map", Key: "IdTag", Elem: "string"},
 	}
-	typePool := []string{"Item", "Filter", "Items", "Index", "[]Item", "map[string]Item", "int", "string", "[]int64", "IdItem", "uint", "[][]string", "bool", "inner.Payload"}
+	typePool := []string{"Item", "Filter", "Items", "Index", "[]Item", "map[string]Item", "int", "string", "[]int64", "IdItem", "uint", "[][]string", "bool", "inner.Payload",
+		"ByTag", "map[IdGroup]bool", "map[int]string"}
 	rs.Ctrls = []RCtrl{{Var: "ct", Pointer: rapid.Bool().Draw(t, "ctPtr")}, {Var: "ct2", Inner: true}}
 	if rapid.Bool().Draw(t, "secondCtrl") {
 		rs.Ctrls = append(rs.Ctrls, RCtrl{Var: "admin", Pointer: rapid.Bool().Draw(t, "adminPtr")})
@@ -641,7 +647,11 @@ func (Echo) Use(string)                          {}
 		case "slice":
 			sb.WriteString("type " + ty.Name + " []" + ty.Elem + "\n\n")
 		case "map":
-			sb.WriteString("type " + ty.Name + " map[string]" + ty.Elem + "\n\n")
+			key := ty.Key
+			if key == "" {
+				key = "string"
+			}
+			sb.WriteString("type " + ty.Name + " map[" + key + "]" + ty.Elem + "\n\n")
 		}
 	}
 	sb.WriteString("type controller struct{}\n\n")
